@@ -1,14 +1,105 @@
+import Crv.Repo
 import Crv.Driver.Util
-/-! Line-protocol driver for stream `repo` (stub: every op is `bad-op` until the model is wired in). -/
+/-!
+Line-protocol driver for stream `repo` (repository state machine).
+  repo cfg <none|verify_log|verify> <actively|background> <strict:bool> <disk:bool>
+  repo serve <loc> down|garbage|doc:<issuer>:<signer>:<number>:<serials,|->
+  repo unsupported <loc>
+  repo hs <issuer> <serial> <cdp|-> <cands,|->      → <status> spawn=<b> <snapshot>
+  repo tick                                          → <snapshot>
+  repo provision <loc> <cands,|->                    → ok|err <snapshot>
+  repo restart | repo close                          → <snapshot>
+Snapshot: entries sorted by location: `E[<loc>:L<0|1>:C<0|1>:<number|->,…]`.
+-/
 namespace Crv.Driver.Repo
+open Crv Crv.Driver Crv.Repo
 
-/-- Model state carried between the lines of this stream. -/
 structure State where
-  dummy : Unit := ()
+  s : Crv.Repo.State := {}
 
 def init : State := {}
 
-/-- One line (already split into words, stream tag removed) → new state and the answer line. -/
-def step (s : State) (ws : List String) : State × String := (s, "bad-op")
+def parseNats (s : String) : Option (List Nat) :=
+  if s = "-" then some [] else (s.splitOn ",").mapM (·.toNat?)
+
+def parseInts (s : String) : Option (List Int) :=
+  if s = "-" then some [] else (s.splitOn ",").mapM (·.toInt?)
+
+def parseServed (s : String) : Option Served :=
+  if s = "down" then some .down
+  else if s = "garbage" then some .garbage
+  else match s.splitOn ":" with
+    | ["doc", i, sg, n, ser] => do
+      let i ← i.toNat?
+      let sg ← sg.toNat?
+      let n ← n.toNat?
+      let ser ← parseInts ser
+      pure (.doc ⟨i, ser, sg, n⟩)
+    | _ => none
+
+def insertSorted (p : Loc × Entry) : List (Loc × Entry) → List (Loc × Entry)
+  | [] => [p]
+  | q :: t => if p.1 ≤ q.1 then p :: q :: t else q :: insertSorted p t
+
+def sortEntries (l : List (Loc × Entry)) : List (Loc × Entry) := l.foldr insertSorted []
+
+def b01 (b : Bool) : String := if b then "1" else "0"
+
+def snapshot (s : Crv.Repo.State) : String :=
+  let items := (sortEntries s.entries).map fun (loc, e) =>
+    let num := match e.store.doc with
+      | some d => if e.loaded && !e.closed then toString d.number else "-"
+      | none => "-"
+    s!"{loc}:L{b01 e.loaded}:C{b01 e.closed}:{num}"
+  "E[" ++ ",".intercalate items ++ "]"
+
+def statusName : Status → String
+  | .notRevoked => "notRevoked" | .revoked => "revoked" | .error => "error"
+
+def sigModeOf? : String → Option SigMode
+  | "none" => some .none | "verify_log" => some .verifyLog | "verify" => some .verify | _ => none
+
+def step (st : State) (ws : List String) : State × String :=
+  let s := st.s
+  match ws with
+  | ["cfg", sm, fm, strict, disk] =>
+    match sigModeOf? sm, parseBool strict, parseBool disk with
+    | some m, some b, some d =>
+      let f? : Option FetchMode := if fm = "actively" then some .actively else if fm = "background" then some .background else none
+      match f? with
+      | some f => ({ s := { cfg := { sigMode := m, fetch := f, strict := b, disk := d } } }, "ok")
+      | none => (st, "bad-op")
+    | _, _, _ => (st, "bad-op")
+  | ["serve", loc, sv] =>
+    match loc.toNat?, parseServed sv with
+    | some l, some v => ({ s := serve s l v }, "ok")
+    | _, _ => (st, "bad-op")
+  | ["unsupported", loc] =>
+    match loc.toNat? with
+    | some l => ({ s := { s with unsupported := l :: s.unsupported } }, "ok")
+    | none => (st, "bad-op")
+  | ["hs", iss, ser, cdp, cands] =>
+    match iss.toNat?, ser.toInt?, parseNats cands with
+    | some i, some n, some cs =>
+      let cdp? : Option (Option Loc) := if cdp = "-" then some none else cdp.toNat?.map some
+      match cdp? with
+      | some c =>
+        let (s', status, spawn) := handshake s ⟨i, n, c⟩ cs
+        -- a spawned background refresh races with the observer: the snapshot is taken by the following `tick`
+        ({ s := s' }, s!"{statusName status} spawn={spawn} {if spawn then "E[*]" else snapshot s'}")
+      | none => (st, "bad-op")
+    | _, _, _ => (st, "bad-op")
+  | ["tick"] =>
+    let s' := updateAll s ((sortEntries s.entries).map (·.1))
+    ({ s := s' }, snapshot s')
+  | ["provision", loc, cands] =>
+    match loc.toNat?, parseNats cands with
+    | some l, some cs =>
+      let (s', o) := provisionOne s l cs
+      ({ s := s' }, (if o == .ok then "ok " else "err ") ++ snapshot s')
+    | _, _ => (st, "bad-op")
+  | ["restart"] => let s' := restart s; ({ s := s' }, snapshot s')
+  | ["close"] => let s' := close s; ({ s := s' }, snapshot s')
+  | _ => (st, "bad-op")
 
 end Crv.Driver.Repo
